@@ -39,6 +39,61 @@ var hooked = map[string]map[string]bool{
 	"positionTrackingWriter": {"Write": true},
 }
 
+// guarded: the typestate flag `closed` stands for the whole store state that the mutex guards.
+// Before the first statement of a method that mentions <recv>...closed (which, in correct code,
+// comes right after the lock is taken) an access of the store object is recorded: a method that
+// reaches it without the proper lock is unordered with the writers and is reported as a race.
+type guardCfg struct {
+	obj      func(recv string) string // expression identifying the shared store object
+	writes   map[string]bool          // methods that modify the store (all others read)
+	required []string                 // methods that must contain the hook (refactors are noticed)
+	iterInGo bool                     // also record a read before every send in goroutines of this type
+}
+
+var guarded = map[string]guardCfg{
+	"ReadOnly": {obj: func(r string) string { return r }, writes: map[string]bool{"closeWithoutMutex": true},
+		required: []string{"Has", "Get", "GetSize", "AllKeysChan", "closeWithoutMutex"}, iterInGo: true},
+	"ReadWrite": {obj: func(r string) string { return "&" + r + ".ronly" }, writes: map[string]bool{"PutMany": true, "finalizeReadOnlyWithoutMutex": true, "closeWithoutMutex": true},
+		required: []string{"PutMany", "Has", "AllKeysChan", "finalizeReadOnlyWithoutMutex"}},
+	"StorageCar": {obj: func(r string) string { return r }, writes: map[string]bool{"Put": true, "Finalize": true},
+		required: []string{"Put", "Has", "GetStream", "Finalize"}},
+	"DeferredCarWriter": {obj: func(r string) string { return r }, writes: map[string]bool{"Put": true, "Close": true, "Has": true},
+		required: []string{"Put", "Has", "Close"}},
+}
+
+func mentionsClosed(n ast.Node, recv string) bool {
+	found := false
+	ast.Inspect(n, func(x ast.Node) bool {
+		if se, ok := x.(*ast.SelectorExpr); ok && se.Sel.Name == "closed" {
+			// rooted at the receiver?
+			e := se.X
+			for {
+				if id, ok := e.(*ast.Ident); ok {
+					if id.Name == recv {
+						found = true
+					}
+					break
+				}
+				if s2, ok := e.(*ast.SelectorExpr); ok {
+					e = s2.X
+					continue
+				}
+				break
+			}
+		}
+		return !found
+	})
+	return found
+}
+
+func parseExpr(src string) ast.Expr {
+	e, err := parser.ParseExpr(src)
+	if err != nil {
+		die("internal: cannot parse %q: %v", src, err)
+	}
+	return e
+}
+
 func die(f string, a ...any) {
 	fmt.Fprintf(os.Stderr, "vrewrite: "+f+"\n", a...)
 	os.Exit(2)
@@ -212,6 +267,137 @@ func main() {
 			hook := &ast.ExprStmt{X: call(sel("vsync", "Access"), ast.NewIdent(recv), ast.NewIdent(w), &ast.BasicLit{Kind: token.STRING, Value: strconv.Quote(id.Name + "." + fd.Name.Name)})}
 			fd.Body.List = append([]ast.Stmt{hook}, fd.Body.List...)
 			r.changed = true
+		}
+		// 3b. store-state hooks (see guarded)
+		hookedMethods := map[string]bool{}
+		for _, d := range f.Decls {
+			fd, ok := d.(*ast.FuncDecl)
+			if !ok || fd.Recv == nil || len(fd.Recv.List) != 1 || fd.Body == nil || len(fd.Recv.List[0].Names) == 0 {
+				continue
+			}
+			st, ok := fd.Recv.List[0].Type.(*ast.StarExpr)
+			if !ok {
+				continue
+			}
+			id, ok := st.X.(*ast.Ident)
+			if !ok {
+				continue
+			}
+			cfg, ok := guarded[id.Name]
+			if !ok {
+				continue
+			}
+			recv := fd.Recv.List[0].Names[0].Name
+			w := "false"
+			if cfg.writes[fd.Name.Name] {
+				w = "true"
+			}
+			mk := func(site string) ast.Stmt {
+				return &ast.ExprStmt{X: call(sel("vsync", "Access"), parseExpr(cfg.obj(recv)), ast.NewIdent(w), &ast.BasicLit{Kind: token.STRING, Value: strconv.Quote(site)})}
+			}
+			// Insert before the first statement that mentions the flag on every path: a compound
+			// statement whose header does not mention it is descended into (the lock may be taken
+			// inside the branch), and the scan of the enclosing list continues after it.
+			var hookList func(list *[]ast.Stmt)
+			hookList = func(list *[]ast.Stmt) {
+				for i := 0; i < len(*list); i++ {
+					stmt := (*list)[i]
+					if !mentionsClosed(stmt, recv) {
+						continue
+					}
+					descend := false
+					switch v := stmt.(type) {
+					case *ast.IfStmt:
+						if !(v.Init != nil && mentionsClosed(v.Init, recv)) && !mentionsClosed(v.Cond, recv) {
+							hookList(&v.Body.List)
+							if eb, ok := v.Else.(*ast.BlockStmt); ok {
+								hookList(&eb.List)
+							}
+							descend = true
+						}
+					case *ast.BlockStmt:
+						hookList(&v.List)
+						descend = true
+					case *ast.ForStmt:
+						hookList(&v.Body.List)
+						descend = true
+					case *ast.RangeStmt:
+						hookList(&v.Body.List)
+						descend = true
+					}
+					if descend {
+						continue
+					}
+					*list = append((*list)[:i], append([]ast.Stmt{mk(id.Name + "." + fd.Name.Name)}, (*list)[i:]...)...)
+					hookedMethods[id.Name+"."+fd.Name.Name] = true
+					r.changed = true
+					return
+				}
+			}
+			hookList(&fd.Body.List)
+			if cfg.iterInGo {
+				// inside goroutines started by this method: a read of the store before every send
+				ast.Inspect(fd.Body, func(n ast.Node) bool {
+					ce, ok := n.(*ast.CallExpr)
+					if !ok {
+						return true
+					}
+					se, ok := ce.Fun.(*ast.SelectorExpr)
+					if !ok || se.Sel.Name != "Go" || len(ce.Args) != 1 {
+						return true
+					}
+					fl, ok := ce.Args[0].(*ast.FuncLit)
+					if !ok {
+						return true
+					}
+					ast.Inspect(fl.Body, func(m ast.Node) bool {
+						var list *[]ast.Stmt
+						switch v := m.(type) {
+						case *ast.BlockStmt:
+							list = &v.List
+						case *ast.CaseClause:
+							list = &v.Body
+						}
+						if list == nil {
+							return true
+						}
+						for i := 0; i < len(*list); i++ {
+							if sw, ok := (*list)[i].(*ast.SwitchStmt); ok {
+								if c, ok := sw.Tag.(*ast.CallExpr); ok {
+									if s2, ok := c.Fun.(*ast.SelectorExpr); ok && s2.Sel.Name == "SelectSendOrDone" {
+										hook := &ast.ExprStmt{X: call(sel("vsync", "Access"), parseExpr(cfg.obj(recv)), ast.NewIdent("false"), &ast.BasicLit{Kind: token.STRING, Value: strconv.Quote(id.Name + "." + fd.Name.Name + " goroutine")})}
+										*list = append((*list)[:i], append([]ast.Stmt{hook}, (*list)[i:]...)...)
+										i++
+									}
+								}
+							}
+						}
+						return true
+					})
+					return true
+				})
+			}
+		}
+		for tname, cfg := range guarded {
+			// only check the file that declares the type's methods
+			declares := false
+			for _, d := range f.Decls {
+				if fd, ok := d.(*ast.FuncDecl); ok && fd.Recv != nil && len(fd.Recv.List) == 1 {
+					if st, ok := fd.Recv.List[0].Type.(*ast.StarExpr); ok {
+						if id, ok := st.X.(*ast.Ident); ok && id.Name == tname {
+							declares = true
+						}
+					}
+				}
+			}
+			if !declares {
+				continue
+			}
+			for _, m := range cfg.required {
+				if !hookedMethods[tname+"."+m] {
+					die("%s: cannot place the store-state hook in %s.%s (no statement mentions the closed flag)", rel, tname, m)
+				}
+			}
 		}
 		// 4. nothing un-hooked may remain
 		ast.Inspect(f, func(n ast.Node) bool {
